@@ -1,7 +1,7 @@
 //! `pvh cmp` — seed-compressed objects versus standard encryption (property C19).
 //!
 //! Request:  `id <layout> be=<backend> n= b= k= kxe= rank= [rank_in=] dnum= dsize= dist= sxs= sxa= sxe= [p=] [pt=<cols>]`
-//!   layouts: lwec (LWECompressed built from its wire format, `nl=` receiver dimension) | glwe | gglwe | ggsw | ksk (switching key) | atk (automorphism key) | tsk (tensor key) | g2g (GGLWE→GGSW key)
+//!   layouts: lwec (LWECompressed built from its wire format, `nl=` LWE dimension, `resb=`/`resk=` receiver radix/precision) | glwe | gglwe | ggsw | ksk (switching key) | atk (automorphism key) | tsk (tensor key) | g2g (GGLWE→GGSW key)
 //! Answer:   `id ok cells=<c> masks=<c ok> dec=<c ok> cellenc=<c ok|-1> ser=<0|1> seedwords=<0|1> …`
 //!   cells     number of ciphertext cells of the decompressed object
 //!   masks     cells whose mask columns equal `vec_znx_fill_uniform` from `Source::new(stored seed)` in column order 1..rank
@@ -542,7 +542,11 @@ macro_rules! cmp_backend {
                     let mut lc = LWECompressed::alloc(bk, tk);
                     lc.read_from(&mut &bytes[..]).unwrap();
                     ser_ok = (ser(&lc) == bytes) as i32;
-                    let mut d = LWE::alloc_from_infos(&layout);
+                    // receiver: same LWE dimension; radix / precision may be made to differ (`resb=`, `resk=`) — must be refused
+                    let resb = if kv(t, "resb").is_some() { kv_us(t, "resb") } else { b };
+                    let resk = if kv(t, "resk").is_some() { kv_us(t, "resk") } else { k };
+                    let rlayout = LWELayout { n: Degree(nl as u32), k: TorusPrecision(resk as u32), base2k: Base2K(resb as u32) };
+                    let mut d = LWE::alloc_from_infos(&rlayout);
                     let r = std::panic::catch_unwind(std::panic::AssertUnwindSafe(|| {
                         module.decompress_lwe(&mut d, &lc);
                     }));
@@ -551,7 +555,7 @@ macro_rules! cmp_backend {
                     cellenc = -1;
                     let body: Vec<String> = (0..size).map(|j| ct.data().at(0, j)[0].to_string()).collect();
                     let child = words(&mut Source::new(seed32(sxa)), (nl + 1) * size);
-                    tail = format!(" body={} child={} obj={}", body.join(","), show_words(&child), show_col(ct.data(), 0));
+                    tail = format!(" ressize={} body={} child={} obj={}", resk.div_ceil(resb), body.join(","), show_words(&child), show_col(ct.data(), 0));
                     match r {
                         Ok(()) => {
                             dec = (d.data().raw() == ct.data().raw()) as i32;
@@ -561,7 +565,7 @@ macro_rules! cmp_backend {
                             dec = -2;
                             masks = -2;
                             let msg: String = panic_msg(&e).chars().map(|c| if c.is_whitespace() { '_' } else { c }).take(100).collect();
-                            tail += &format!(" panic={msg}");
+                            tail += &format!(" panic={}:{msg}", panic_class(&panic_msg(&e)));
                         }
                     }
                 }
